@@ -135,6 +135,12 @@ def setup_collect(eng):
     setup_nodes(eng)
     nm.install_abs(eng)
     get_sort_contract(eng)
+    # the trace messages of collect_information are built eagerly: their
+    # arguments are evaluated (str(node) through its contract: an opaque
+    # string, raises nothing -- verified by the contract Node.__str__)
+    eng.eval_log_args = True
+    eng.overrides['ddsmt.nodes.Node.__str__'] = lambda e, n: sym.mk_str(
+        [('v', sym.cur().fresh_str('rendered'))])
 
     def havoc(e, env_, p):
         nm.havoc_tables(e, p)
